@@ -197,7 +197,8 @@ fn parse(toks: &[&str]) -> Option<Params> {
     if tcp && (drop_pm | dup_pm | reorder_pm | vanish_us) != 0 {
         return None;
     }
-    if (server_op == ServerOp::Vanish) != (vanish_us != 0) && !tcp {
+    // the network vanishes for server_op=vanish (mandatory) and optionally for server_op=stall
+    if !tcp && ((server_op == ServerOp::Vanish && vanish_us == 0) || (vanish_us != 0 && !matches!(server_op, ServerOp::Vanish | ServerOp::Stall))) {
         return None;
     }
     // the scaffolding's idle timeout is fixed (dc::testing::TEST_APPLICATION_PARAMS); the op line
